@@ -1,7 +1,7 @@
 #!/bin/bash
 # eval_mutant.sh <patch.diff> <ID> [<ID>...]: apply a seeded change to /repo, run the quick checks,
 # print their exit codes and VIOLATION lines, and undo the change straight afterwards.
-P="$1"; shift
+P="$(realpath "$1")"; shift
 # hold the /repo lock (see /verif/check) for as long as the change is applied
 if [ -z "${AXVERIF_LOCK_HELD:-}" ]; then
   mkdir -p /verif/target; exec 9>/verif/target/.repo.lock; flock 9; export AXVERIF_LOCK_HELD=1
